@@ -106,6 +106,9 @@ struct Scenario {
     pos: usize,
     /// what A sends right before MULTI: 0 nothing, 1 `WATCH w` again, 2 `UNWATCH`, 3 `WATCH k w`
     pre_multi: usize,
+    /// an earlier transaction on the SAME connection (run first, same oracle); whatever it leaves
+    /// behind in the connection (queue, error flag, watches) must not leak into this one
+    prologue: Option<Box<Scenario>>,
 }
 
 const PRE_MULTI: &[&str] = &["", "WATCH w", "UNWATCH", "WATCH k w"];
@@ -114,7 +117,8 @@ impl Scenario {
     fn json(&self) -> serde_json::Value {
         json!({"shards": self.shards, "watched_key_type": WATCH_TYPES[self.wtype].0, "watch": self.watch,
                "body": self.body.iter().map(|b| BODY_OPS[*b]).collect::<Vec<_>>(), "end": if self.end_exec { "EXEC" } else { "DISCARD" },
-               "b_write": B_WRITES[self.bwrite], "position": POSITIONS[self.pos], "pre_multi": PRE_MULTI[self.pre_multi]})
+               "b_write": B_WRITES[self.bwrite], "position": POSITIONS[self.pos], "pre_multi": PRE_MULTI[self.pre_multi],
+               "prologue": self.prologue.as_ref().map(|p| p.json())})
     }
     fn from_json(v: &serde_json::Value) -> Scenario {
         Scenario {
@@ -126,6 +130,7 @@ impl Scenario {
             bwrite: B_WRITES.iter().position(|x| *x == v["b_write"].as_str().unwrap()).unwrap(),
             pos: POSITIONS.iter().position(|x| *x == v["position"].as_str().unwrap()).unwrap(),
             pre_multi: v["pre_multi"].as_str().map(|p| PRE_MULTI.iter().position(|x| *x == p).unwrap_or(0)).unwrap_or(0),
+            prologue: if v["prologue"].is_object() { Some(Box::new(Scenario::from_json(&v["prologue"]))) } else { None },
         }
     }
 }
@@ -135,18 +140,41 @@ fn name_of(op: &str) -> String {
 }
 
 /// Run one scenario; Err((signature, detail)) on violation.
-fn run_scenario(sc: &Scenario) -> Result<String, (String, String)> {
+fn run_scenario(root: &Scenario) -> Result<String, (String, String)> {
     polex::with_runtime(|rt| {
         rt.block_on(async {
             let mach = |e: String| ("harness-io".to_string(), e);
-            let mut m = World::new(sc.shards); // main
-            let mut t = World::new(sc.shards); // twin: body without MULTI
+            let mut m = World::new(root.shards); // main
+            let mut t = World::new(root.shards); // twin: body without MULTI
             let l = |s: &str| resp::line(s);
-            // setup
-            for s in [l("SET s abc")].iter().chain(WATCH_TYPES[sc.wtype].1.iter().map(|x| l(x)).collect::<Vec<_>>().iter()) {
+            // setup (the watched key's type is that of the first transaction run)
+            let first = root.prologue.as_deref().unwrap_or(root);
+            for s in [l("SET s abc")].iter().chain(WATCH_TYPES[first.wtype].1.iter().map(|x| l(x)).collect::<Vec<_>>().iter()) {
                 m.one(false, s).await.map_err(mach)?;
                 t.one(false, s).await.map_err(mach)?;
             }
+            match &root.prologue {
+                None => run_txn(&mut m, &mut t, root, root).await.map(|o| o.to_string()),
+                Some(p) => {
+                    let first = run_txn(&mut m, &mut t, p, root).await.map_err(|(sig, d)| (format!("{sig} (first of two transactions)"), d))?;
+                    run_txn(&mut m, &mut t, root, root)
+                        .await
+                        .map(|o| format!("{first}->{o}"))
+                        .map_err(|(sig, d)| (format!("{sig} after-earlier-transaction={first}"), d))
+                }
+            }
+        })
+    })
+}
+
+/// One WATCH/MULTI/body/EXEC|DISCARD round of `sc` on connection A of the two worlds (main and
+/// twin) in their current state; `root` is only used to describe the whole scenario in messages.
+async fn run_txn(m: &mut World, t: &mut World, sc: &Scenario, root: &Scenario) -> Result<&'static str, (String, String)> {
+    let sc_desc = root.json();
+    {
+        {
+            let mach = |e: String| ("harness-io".to_string(), e);
+            let l = |s: &str| resp::line(s);
             let bw = B_WRITES[sc.bwrite];
             let write = |pos: usize| bw != "none" && sc.pos == pos;
             let do_write = |pos: usize| write(pos);
@@ -164,7 +192,7 @@ fn run_scenario(sc: &Scenario) -> Result<String, (String, String)> {
             if sc.watch {
                 let r = m.one(true, &l("WATCH w")).await.map_err(mach)?;
                 if resp::show(&r) != "+OK" {
-                    return Err(("watch-reply".into(), format!("{}: WATCH replied {}", sc.json(), resp::show(&r))));
+                    return Err(("watch-reply".into(), format!("{}: WATCH replied {}", sc_desc, resp::show(&r))));
                 }
                 at_watch = Some(w_value(&m.keyspace().await.map_err(mach)?));
             }
@@ -172,7 +200,7 @@ fn run_scenario(sc: &Scenario) -> Result<String, (String, String)> {
             if sc.pre_multi > 0 {
                 let r = m.one(true, &l(PRE_MULTI[sc.pre_multi])).await.map_err(mach)?;
                 if resp::show(&r) != "+OK" {
-                    return Err(("watch-reply".into(), format!("{}: `{}` replied {}", sc.json(), PRE_MULTI[sc.pre_multi], resp::show(&r))));
+                    return Err(("watch-reply".into(), format!("{}: `{}` replied {}", sc_desc, PRE_MULTI[sc.pre_multi], resp::show(&r))));
                 }
                 if sc.pre_multi == 2 {
                     at_watch = None; // UNWATCH: nothing is watched any more
@@ -183,7 +211,7 @@ fn run_scenario(sc: &Scenario) -> Result<String, (String, String)> {
             }
             let r = m.one(true, &l("MULTI")).await.map_err(mach)?;
             if resp::show(&r) != "+OK" {
-                return Err(("multi-reply".into(), format!("{}: MULTI replied {}", sc.json(), resp::show(&r))));
+                return Err(("multi-reply".into(), format!("{}: MULTI replied {}", sc_desc, resp::show(&r))));
             }
             bwrite!(2);
             // body: every command must be answered QUEUED or with an error, never with a result
@@ -195,7 +223,7 @@ fn run_scenario(sc: &Scenario) -> Result<String, (String, String)> {
                 let shown = resp::show(&r);
                 if shown == "+QUEUED" {
                     if matches!(name_of(op).as_str(), "MULTI" | "WATCH") {
-                        return Err((format!("queued-reply {}", name_of(op)), format!("{}: `{op}` inside MULTI was queued", sc.json())));
+                        return Err((format!("queued-reply {}", name_of(op)), format!("{}: `{op}` inside MULTI was queued", sc_desc)));
                     }
                     queued.push(l(op));
                 } else if resp::is_err(&r) {
@@ -203,7 +231,7 @@ fn run_scenario(sc: &Scenario) -> Result<String, (String, String)> {
                         aborting = true;
                     }
                 } else {
-                    return Err((format!("queued-reply {}", name_of(op)), format!("{}: `{op}` inside MULTI replied {} (a result before EXEC)", sc.json(), shown)));
+                    return Err((format!("queued-reply {}", name_of(op)), format!("{}: `{op}` inside MULTI replied {} (a result before EXEC)", sc_desc, shown)));
                 }
             }
             bwrite!(3);
@@ -213,7 +241,7 @@ fn run_scenario(sc: &Scenario) -> Result<String, (String, String)> {
             if let Some((kind, desc)) = dump::diff(&twin_before, &before) {
                 return Err((
                     format!("effect-before-exec {kind}"),
-                    format!("{}: before EXEC/DISCARD the keyspace already differs from a server that only saw the setup and B's write: {desc}", sc.json()),
+                    format!("{}: before EXEC/DISCARD the keyspace already differs from a server that only saw the setup and B's write: {desc}", sc_desc),
                 ));
             }
             let at_exec = w_value(&before);
@@ -225,14 +253,14 @@ fn run_scenario(sc: &Scenario) -> Result<String, (String, String)> {
                     None => Ok(()),
                     Some((kind, desc)) => Err((
                         format!("{what} changed-keyspace {kind}"),
-                        format!("{}: {what} (reply {}) must leave the keyspace untouched: {desc}", sc.json(), resp::show(&reply)),
+                        format!("{}: {what} (reply {}) must leave the keyspace untouched: {desc}", sc_desc, resp::show(&reply)),
                     )),
                 }
             };
             let outcome;
             if !sc.end_exec {
                 if resp::show(&reply) != "+OK" {
-                    return Err(("discard-reply".into(), format!("{}: DISCARD replied {}", sc.json(), resp::show(&reply))));
+                    return Err(("discard-reply".into(), format!("{}: DISCARD replied {}", sc_desc, resp::show(&reply))));
                 }
                 unchanged("DISCARD")?;
                 outcome = "discarded";
@@ -240,7 +268,7 @@ fn run_scenario(sc: &Scenario) -> Result<String, (String, String)> {
                 if resp::err_code(&reply).as_deref() != Some("EXECABORT") {
                     return Err((
                         "execabort-missing".into(),
-                        format!("{}: a queue-time error occurred but EXEC replied {}", sc.json(), resp::show(&reply)),
+                        format!("{}: a queue-time error occurred but EXEC replied {}", sc_desc, resp::show(&reply)),
                     ));
                 }
                 unchanged("EXECABORT")?;
@@ -252,7 +280,7 @@ fn run_scenario(sc: &Scenario) -> Result<String, (String, String)> {
                     if !is_nil {
                         return Err((
                             format!("watch-missed type={}{}", WATCH_TYPES[sc.wtype].0, if sc.pre_multi > 0 && matches!(WATCH_TYPES[sc.wtype].0, "missing" | "string" | "string+ttl") { format!(" pre-multi={}", PRE_MULTI[sc.pre_multi].split(' ').next().unwrap()) } else { String::new() }),
-                            format!("{}: watched key w was {} at WATCH and {} at EXEC, yet EXEC replied {}", sc.json(), at_watch.clone().unwrap(), at_exec, resp::show(&reply)),
+                            format!("{}: watched key w was {} at WATCH and {} at EXEC, yet EXEC replied {}", sc_desc, at_watch.clone().unwrap(), at_exec, resp::show(&reply)),
                         ));
                     }
                     unchanged("failed WATCH")?;
@@ -261,7 +289,7 @@ fn run_scenario(sc: &Scenario) -> Result<String, (String, String)> {
                     if is_nil {
                         return Err((
                             format!("watch-spurious type={}{}", WATCH_TYPES[sc.wtype].0, if sc.pre_multi > 0 && matches!(WATCH_TYPES[sc.wtype].0, "missing" | "string" | "string+ttl") { format!(" pre-multi={}", PRE_MULTI[sc.pre_multi].split(' ').next().unwrap()) } else { String::new() }),
-                            format!("{}: watched key w unchanged ({}) yet EXEC replied nil", sc.json(), at_exec),
+                            format!("{}: watched key w unchanged ({}) yet EXEC replied nil", sc_desc, at_exec),
                         ));
                     }
                     // twin: the queued commands executed consecutively, no MULTI
@@ -273,14 +301,14 @@ fn run_scenario(sc: &Scenario) -> Result<String, (String, String)> {
                     if reply != want {
                         return Err((
                             format!("exec-reply body=[{}]", sc.body.iter().map(|b| name_of(BODY_OPS[*b])).collect::<Vec<_>>().join(",")),
-                            format!("{}: EXEC replied {} but the same commands run consecutively reply {}", sc.json(), resp::show(&reply), resp::show(&want)),
+                            format!("{}: EXEC replied {} but the same commands run consecutively reply {}", sc_desc, resp::show(&reply), resp::show(&want)),
                         ));
                     }
                     let twin_after = t.keyspace().await.map_err(mach)?;
                     if let Some((kind, desc)) = dump::diff(&twin_after, &after) {
                         return Err((
                             format!("exec-keyspace {kind}"),
-                            format!("{}: keyspace after EXEC differs from the sequential run: {desc}", sc.json()),
+                            format!("{}: keyspace after EXEC differs from the sequential run: {desc}", sc_desc),
                         ));
                     }
                     outcome = "applied";
@@ -289,11 +317,11 @@ fn run_scenario(sc: &Scenario) -> Result<String, (String, String)> {
             // the connection must have left the transaction
             let ping = m.one(true, &l("PING")).await.map_err(mach)?;
             if resp::show(&ping) != "+PONG" {
-                return Err(("still-in-multi".into(), format!("{}: PING after {end} replied {}", sc.json(), resp::show(&ping))));
+                return Err(("still-in-multi".into(), format!("{}: PING after {end} replied {}", sc_desc, resp::show(&ping))));
             }
-            Ok(outcome.to_string())
-        })
-    })
+            Ok(outcome)
+        }
+    }
 }
 
 /// Executor-level transaction path (simulation path): same oracle on a bare CommandExecutor; the
@@ -431,7 +459,7 @@ fn main() {
         // (1) transaction bodies x EXEC/DISCARD, no watch, no second client
         for body in &body_set {
             for end_exec in [true, false] {
-                scenarios.push(Scenario { shards, wtype: 1, watch: false, body: body.clone(), end_exec, bwrite: 0, pos: 0, pre_multi: 0 });
+                scenarios.push(Scenario { shards, wtype: 1, watch: false, body: body.clone(), end_exec, bwrite: 0, pos: 0, pre_multi: 0, prologue: None });
             }
         }
         // (2) WATCH: key types x B's write x position, with small bodies
@@ -443,10 +471,10 @@ fn main() {
                         continue;
                     }
                     for body in &watch_bodies {
-                        scenarios.push(Scenario { shards, wtype, watch: true, body: body.clone(), end_exec: true, bwrite, pos, pre_multi: 0 });
+                        scenarios.push(Scenario { shards, wtype, watch: true, body: body.clone(), end_exec: true, bwrite, pos, pre_multi: 0, prologue: None });
                         if body.len() <= 1 {
                             for pre_multi in 1..PRE_MULTI.len() {
-                                scenarios.push(Scenario { shards, wtype, watch: true, body: body.clone(), end_exec: true, bwrite, pos, pre_multi });
+                                scenarios.push(Scenario { shards, wtype, watch: true, body: body.clone(), end_exec: true, bwrite, pos, pre_multi, prologue: None });
                             }
                         }
                     }
@@ -454,6 +482,29 @@ fn main() {
             }
         }
     }
+    // (3) two transactions in a row on one connection: whatever the first leaves behind (queued commands, the
+    // queue-time error flag, watches) must not leak into the second. First: bodies of <=2 over {SET k a, INCR s,
+    // unknown command, wrong arity} x {EXEC, DISCARD} x {no WATCH, WATCH unchanged, WATCH + change by B};
+    // second: bodies of <=1 over {SET k a, unknown command, SET w z} x {no WATCH, WATCH unchanged, WATCH + change}.
+    let single = scenarios.len();
+    let first_bodies = bodies(2, &[0, 2, 6, 7]);
+    let second_bodies = bodies(1, &[0, 6, 10]);
+    let watch_variants: &[(bool, usize, usize)] = &[(false, 0, 0), (true, 0, 0), (true, 2, 1)];
+    for &shards in shard_opts {
+        for fb in &first_bodies {
+            for f_end in [true, false] {
+                for &(f_watch, f_bw, f_pos) in watch_variants {
+                    for sb in &second_bodies {
+                        for &(s_watch, s_bw, s_pos) in watch_variants {
+                            let prologue = Scenario { shards, wtype: 1, watch: f_watch, body: fb.clone(), end_exec: f_end, bwrite: f_bw, pos: f_pos, pre_multi: 0, prologue: None };
+                            scenarios.push(Scenario { shards, wtype: 1, watch: s_watch, body: sb.clone(), end_exec: true, bwrite: s_bw, pos: s_pos, pre_multi: 0, prologue: Some(Box::new(prologue)) });
+                        }
+                    }
+                }
+            }
+        }
+    }
+    let chained = scenarios.len() - single;
     let outcomes: std::sync::Mutex<std::collections::BTreeMap<String, u64>> = Default::default();
     let evals = AtomicU64::new(0);
     par::par_map(&scenarios, |_, sc| {
@@ -510,9 +561,10 @@ fn main() {
         "outcome_histogram": outcomes,
         "samples": [scenarios[scenarios.len() / 3].json(), scenarios[scenarios.len() - 1].json()],
         "connection_level_scenarios": scenarios.len(),
+        "two_transactions_on_one_connection_scenarios": chained,
         "executor_level_scenarios": ex_items.len(),
         "exhaustive": true,
-        "rule": "connection level: (all bodies of <=3 commands over 12 body ops incl. run-time failure, unknown command, wrong arity, nested MULTI, WATCH inside MULTI) x {EXEC, DISCARD}; and WATCH scenarios: 7 watched-key types x 13 writes by a second connection x 4 positions x small bodies; every scenario is executed on the real handler (2 connections, one state, strictly sequential) and on a twin server that runs the queued commands without MULTI; executor level: same oracle on a bare CommandExecutor",
+        "rule": "connection level: (all bodies of <=3 commands over 12 body ops incl. run-time failure, unknown command, wrong arity, nested MULTI, WATCH inside MULTI) x {EXEC, DISCARD}; and WATCH scenarios: 7 watched-key types x 13 writes by a second connection x 4 positions x small bodies (plus re-WATCH / UNWATCH / WATCH k w right before MULTI); and two transactions in a row on one connection (first: bodies <=2 over {SET, INCR, unknown command, wrong arity} x {EXEC, DISCARD} x {no WATCH, WATCH kept, WATCH broken by B}; second: bodies <=1 x the same three WATCH variants); every scenario is executed on the real handler (2 connections, one state, strictly sequential) and on a twin server that runs the queued commands without MULTI; executor level: same oracle on a bare CommandExecutor",
     });
     rep.finish(
         coverage,
